@@ -146,7 +146,7 @@ def crash_class(rc, err):
             break
     return kind + '@' + frame
 
-def main():
+def main():  # noqa
     if len(sys.argv) >= 3 and sys.argv[1] == '--replay':
         return replay_file(sys.argv[2])
     pid, tier = sys.argv[1], (sys.argv[2] if len(sys.argv) > 2 else os.environ.get('VERIF_TIER', 'quick'))
@@ -201,11 +201,14 @@ def main():
                 rc = w['p'].poll()
                 if rc is None:
                     if time.time() - tph > ph['budget'] + 120:
+                        w['killed'] = True  # over the wall-clock allowance: not a verdict about the seed it was on
                         w['p'].kill()
                     continue
                 pending.remove(w)
                 done_outs.append(w['out'])
-                if rc != 0:
+                if rc != 0 and w.get('killed'):
+                    agg['counters']['workers_cut_by_wall_clock'] = agg['counters'].get('workers_cut_by_wall_clock', 0) + 1
+                elif rc != 0:
                     # the worker died: find the seed it was on, record a crash, restart after it
                     last_b = None
                     finished = set()
@@ -369,7 +372,9 @@ def main():
     ev = {'property_id': pid, 'tier': tier, 'seed': seed, 'level': 'exploration', 'coverage': cov,
           'assumptions': ASSUMPTIONS.get(pid, []) + ['reference BLAS/LAPACK instead of OpenBLAS', 'accesses inside uninstrumented dependencies (LAPACK, SQLite, libc) are invisible to the race detector'],
           'wall_s': round(wall, 2), 'violations': len(reported)}
-    json.dump(ev, open(os.path.join(VERIF, 'evidence', pid + '.json'), 'w'), indent=1)
+    evdir = os.path.join(VERIF, 'evidence') if os.path.realpath(REPO) == '/repo' else os.path.join(VERIF, 'build', 'tmp', 'evidence-other-repo')
+    os.makedirs(evdir, exist_ok=True)
+    json.dump(ev, open(os.path.join(evdir, pid + '.json'), 'w'), indent=1)
     shutil.rmtree(tmpdir, ignore_errors=True)
 
     for kid, h in sorted(known_hits.items()):
@@ -440,9 +445,15 @@ RULES.update({
     'C18': 'Each seed draws a routine (PCA, PLS, CPCA, LeaveOneOut with MLR, KMeans with every initialiser, NelderMeadSimplex), a degeneracy class (rank-deficient integer outer products, constant columns, all-constant, duplicated rows, tiny shapes, more components than rank, constant / two-valued responses, constant block, duplicated points, flat objective), shape, component count, scaling, optional 2^-k perturbation and a simulated processor count; the call runs under a step budget of 20000 x (steps of the same routine on a regular problem of the same shape, measured in the same run) + 1e6, and is unwound in-process when the budget is exhausted.',
     'C14': 'Each seed draws a history of 1..40 operations over pools of 4 live containers per kind (matrix, dvector, uivector, ivector, strvector, tensor, dvectorlist; a random subset of kinds is enabled per run): create, resize, copy into fresh and live destinations, append rows/columns whose length is drawn around the current shape (zero, shorter, equal, longer), delete, set/get in and out of range, extend, sort, remove, re-initialise. The allocator hands out NaN-garbage-filled blocks, moves blocks on realloc by a per-run coin, and in 20% of the histories fails the k-th allocation of one operation. After every operation all 28 containers are compared cell by cell with std::vector shadows. ASan+UBSan build.',
     'C17': 'Each seed draws 3..80 objects x 1..6 variables in general position, an algorithm (MDC, MaxDis + MaxDis_Fast, KMeansppCenters after srand_, KMeans with initialiser 0..3, the random one seeded), selection size / cluster count, metric, nthreads 1..8 and a strategy S0-S3; two simulated executions per seed (one worker canonical schedule; requested thread count under the explored schedule and another clock origin).',
+    'C01': 'Each seed draws a matrix (2..60 x 1..25, small shapes more often; column spreads 0.1..1000, offsets 1e-2..1e4 of either sign, optional exactly-constant columns), a scaling option -1..5, a component count 1..rank (rank by a long-double oracle with a clear pivot gap), a simulated processor count from {1,2,3,4,5,7,8,16,24, rows+1, cols+1} and a worker strategy S0-S3; three fits per seed (1 processor; N processors canonical order; N processors explored schedule).',
+    'C02': 'Each seed draws U diag(s) V^T + offsets with random orthogonal U, V (Householder products in long double) and eigenvalue ratios <= 0.85, a scaling option, a component count, a simulated processor count and a schedule; oracle: cyclic-Jacobi eigen-decomposition of E^T E in long double, tolerance derived from the documented convergence criterion; one equivariance transform (object permutation, variable permutation, rotation of unscaled data) per seed.',
+    'C09': 'Each seed draws 2..4 blocks of 1..8 variables cut from U diag(s) V^T + offsets (separated spectrum on the concatenation), 5..30 objects, scaling 0..5, 1..min width components, a simulated processor count 1..8 and a schedule; the comparator is the library PCA on the identically preprocessed, 1/sqrt(width)-scaled concatenation, plus a Jacobi oracle for the eigenvalue ratios that set the tolerance.',
     'C16': 'Each seed draws a pool of 2..4 PCA/CPCA/PLS models (fitted on data scaled by 1e-9..1e9, or synthetic with fields of those magnitudes and empty optional fields) and a history of 1..5 Write/Read operations over 1..2 paths; 40% of histories attach one fault to one write (I/O error, disk full, short write, kill with or without torn last write) at a VFS call drawn uniformly over the call count of that very operation (measured by a dry run on a copy). Reads are checked against a reference map path -> last write that completed without a fault.',
 })
 ASSUMPTIONS = {
+    'C01': ['library preprocessing (C10, not claimed) is trusted to produce the preprocessed matrix', 'inputs are sampled; what the simulator decides is the processor-count / schedule axis', 'variance bookkeeping tolerance tau = 200*npc*sqrt(n*PCACONVERGENCE) percent points (the stored eigenvalue is t^T t before the last update)'],
+    'C02': ['components whose eigenvalue is below what inexact deflation of earlier components can leave behind are skipped (counted)', 'angle tolerance eps_k = 10(k+1)sqrt(n*1e-10)/((1-rho)/2), rho the largest eigenvalue ratio among the requested components (Jacobi oracle)'],
+    'C09': ['same tolerance derivation as C02; components below deflation noise are skipped (counted)'],
     'C17': ['max-min and farthest-from-centroid checks are skipped (counted) when the top two candidates tie to 1e-9 relative', 'the nearest-centroid check uses the documented stop rule slack 2*sqrt(cols)*1e-3 and is skipped when the number of labelling sweeps may have reached the cap of 100', 'cosine "distance" is the quantity metricspace.c computes (a similarity); the oracle uses the same definition'],
     'C14': ['leaks are not violations', 'UBSan nonnull-attribute (qsort(NULL,0), memcpy(NULL,..,0)) is disabled: no memory is touched', 'NewStrVector(n>0) and NewDVectorList(n>0) are not generated (their elements are documented as to-be-filled by the caller)', 'TensorAppendRow is not generated (its own check contradicts its name)'],
     'C18': ['a call that uses more than 20000 times the steps of a regular call of the same shape is declared non-terminating (largest ratio observed for terminating calls is reported under counters max.steps_ratio_to_regular.*)', 'numerical rank is decided by a long-double elimination with a clear pivot gap; ambiguous cases skip the rank-dependent checks'],
